@@ -27,7 +27,8 @@ RULE = ("records = (write/read history, storage configuration); histories are dr
         "seek) under contiguous, chunked, chunked+compressed, compressed and external layouts for SD and GR; external "
         "elements at offsets 0..4096 sharing their file with foreign guard bytes in front, written completely and then "
         "partially rewritten near the end, with the guard bytes and the placement of the data in the external file "
-        "checked at the end. Thorough tier: every chunk shape of every extent up to "
+        "checked at the end; in about half of all records 1-3 other attributes are set before and 0-3 after the fill "
+        "value ahead of the layout-selection call (the object's other metadata must not matter). Thorough tier: every chunk shape of every extent up to "
         "4x4x3 with cache sizes 1..chunks+1. Each record's output is compared with the array specification. "
         "Function level: static chunk arithmetic of hchunks.c and mcache_get/put/sync vs the Coq models on generated "
         "and exhaustive small cases. A record is non-trivial when it transfers data under a non-baseline layout; "
